@@ -123,6 +123,35 @@ static unsigned long long obs_hash(const exec_t* ex)
 	return h;
 }
 
+/* sequential execution of the operations in the given order on a fresh process; memoised per order */
+static void seq_replay(const c18_prog_t* q, exec_t* ex2)
+{
+	static struct { int n; unsigned char t[64], k[64]; int ok; c18_obs_t obs; } memo[4096]; static int nmemo;
+	int m;
+	for (m = 0; m < nmemo; ++m)
+		if (memo[m].n == q->nseq && !memcmp(memo[m].t, q->seq_tid, (size_t)q->nseq) && !memcmp(memo[m].k, q->seq_op, (size_t)q->nseq)) break;
+	if (m < nmemo) { ex2->ok = memo[m].ok; ex2->obs = memo[m].obs; ex2->err[0] = 0; ++replay_hits; return; }
+	run_child(q, 0, 0, 1, ex2);   /* same memory layout as the explored run (shadow mapped) */
+	++replay_runs;
+	if (nmemo < 4096)
+	{
+		memo[nmemo].n = q->nseq; memcpy(memo[nmemo].t, q->seq_tid, 64); memcpy(memo[nmemo].k, q->seq_op, 64);
+		memo[nmemo].ok = ex2->ok; memo[nmemo].obs = ex2->obs; ++nmemo;
+	}
+}
+/* do the results of the sequential execution ex2 equal the observed ones for every operation? */
+static int explains(const c18_prog_t* q, const exec_t* ex, const exec_t* ex2, int* bt, int* bk)
+{
+	int i, t, k;
+	for (i = 0; i < q->nseq; ++i)
+	{
+		t = q->seq_tid[i]; k = q->seq_op[i];
+		if (ex2->obs.ret[t][k] != ex->obs.ret[t][k] || memcmp(ex2->obs.out[t][k], ex->obs.out[t][k], 32))
+		{ *bt = t; *bk = k; return 0; }
+	}
+	return 1;
+}
+
 static void judge(const c18_prog_t* prog, const exec_t* ex, verdict_t* v)
 {
 	int t, k, i;
@@ -196,76 +225,89 @@ static void judge(const c18_prog_t* prog, const exec_t* ex, verdict_t* v)
 		if (ex->res.mutex_inits != ex->res.mutex_destroys)
 			vadd(v, "EXIT %d mutexes created, %d destroyed by the exit-time destructors", ex->res.mutex_inits, ex->res.mutex_destroys);
 		/* linearisation = order in which the generator's mutex was taken */
-		q.kind = 'q'; q.nseq = 0;
-		for (i = 0; i < ex->res.nlockorder; ++i)
 		{
-			if (ex->res.lockaddr[i] != ex->res.first_mutex) continue;
-			t = ex->res.lockorder[i]; k = ex->res.lockop[i];
-			if (t < 1 || t > prog->nthr || k >= prog->nops[t]) continue;
-			if (seen[t][k]) { vadd(v, "RNG thread %d op %d took the generator mutex twice", t, k); continue; }
-			seen[t][k] = 1;
-			q.seq_tid[q.nseq] = (unsigned char)t; q.seq_op[q.nseq] = (unsigned char)k; q.nseq++;
-		}
-		for (t = 1; t <= prog->nthr; ++t)
-			for (k = 0; k < prog->nops[t]; ++k)
-				if (!seen[t][k])
-				{
-					if (prog->ops[t][k].code == 'V') { if (ex->obs.ret[t][k] != 0) vadd(v, "RNG rngIsValid returned TRUE without consulting the state under the mutex"); }
-					else vadd(v, "RNG thread %d op %d (%c) never took the generator mutex", t, k, prog->ops[t][k].code);
-				}
-		/* distinct output blocks */
-		{
-			const unsigned char* blocks[VS_MAXT * C18_MAXOPS]; int nb = 0, a, b;
-			static const unsigned char zero[32];
+			int structural = 1, bad_t = 0, bad_k = 0, bad_n = 0;
+			unsigned char cnt[VS_MAXT][C18_MAXOPS];
+			memset(cnt, 0, sizeof cnt);
+			q.kind = 'q'; q.nseq = 0;
+			for (i = 0; i < ex->res.nlockorder; ++i)
+			{
+				if (ex->res.lockaddr[i] != ex->res.first_mutex) continue;
+				t = ex->res.lockorder[i]; k = ex->res.lockop[i];
+				if (t < 1 || t > prog->nthr || k >= prog->nops[t]) continue;
+				if (cnt[t][k]++) continue;
+				seen[t][k] = 1;
+				q.seq_tid[q.nseq] = (unsigned char)t; q.seq_op[q.nseq] = (unsigned char)k; q.nseq++;
+			}
 			for (t = 1; t <= prog->nthr; ++t)
 				for (k = 0; k < prog->nops[t]; ++k)
-					if ((prog->ops[t][k].code == 'S' || prog->ops[t][k].code == 'R'))
-					{
-						int n = prog->ops[t][k].arg;
-						if (n >= 16 && memcmp(ex->obs.out[t][k], zero, (size_t)n) == 0) vadd(v, "RNG thread %d op %d: output buffer not filled", t, k);
-						if (n >= 4 && ex->obs.out[t][k][n - 1] == 0 && ex->obs.out[t][k][n - 2] == 0 && ex->obs.out[t][k][n - 3] == 0 && ex->obs.out[t][k][n - 4] == 0)
-							vadd(v, "RNG thread %d op %d: tail of the request not filled", t, k);
-						if (n == 32) blocks[nb++] = ex->obs.out[t][k];
-					}
-			for (a = 0; a < nb; ++a) for (b = a + 1; b < nb; ++b)
-				if (memcmp(blocks[a], blocks[b], 32) == 0) vadd(v, "RNG two requests received the same output block");
-		}
-		/* sequential replay of the linearisation on a fresh process */
-		if (v->n == 0)
-		{
-			/* the sequential execution depends on the order only: memoised per linearisation */
+					if (cnt[t][k] != 1 && !(cnt[t][k] == 0 && prog->ops[t][k].code == 'V' && ex->obs.ret[t][k] == 0))
+					{ structural = 0; bad_t = t; bad_k = k; bad_n = cnt[t][k]; }
+			/* distinct output blocks */
 			{
-				static struct { int n; unsigned char t[64], k[64]; int ok; c18_obs_t obs; } memo[2048]; static int nmemo;
-				int m;
-				for (m = 0; m < nmemo; ++m)
-					if (memo[m].n == q.nseq && !memcmp(memo[m].t, q.seq_tid, (size_t)q.nseq) && !memcmp(memo[m].k, q.seq_op, (size_t)q.nseq)) break;
-				if (m < nmemo) { ex2->ok = memo[m].ok; ex2->obs = memo[m].obs; ++replay_hits; }
+				const unsigned char* blocks[VS_MAXT * C18_MAXOPS]; int nb = 0, a, b;
+				static const unsigned char zero[32];
+				for (t = 1; t <= prog->nthr; ++t)
+					for (k = 0; k < prog->nops[t]; ++k)
+						if ((prog->ops[t][k].code == 'S' || prog->ops[t][k].code == 'R'))
+						{
+							int n = prog->ops[t][k].arg;
+							if (n >= 16 && memcmp(ex->obs.out[t][k], zero, (size_t)n) == 0) vadd(v, "RNG thread %d op %d: output buffer not filled", t, k);
+							if (n >= 4 && ex->obs.out[t][k][n - 1] == 0 && ex->obs.out[t][k][n - 2] == 0 && ex->obs.out[t][k][n - 3] == 0 && ex->obs.out[t][k][n - 4] == 0)
+								vadd(v, "RNG thread %d op %d: tail of the request not filled", t, k);
+							if (n == 32) blocks[nb++] = ex->obs.out[t][k];
+						}
+				for (a = 0; a < nb; ++a) for (b = a + 1; b < nb; ++b)
+					if (memcmp(blocks[a], blocks[b], 32) == 0) vadd(v, "RNG two requests received the same output block");
+			}
+			if (v->n == 0 && structural)
+			{
+				/* every operation is one critical section: the lock order is THE candidate linearisation */
+				seq_replay(&q, ex2);
+				if (!ex2->ok) vadd(v, "RNG sequential replay of the linearisation crashed: %s", ex2->err);
 				else
 				{
-					run_child(&q, 0, 0, 1, ex2);   /* same memory layout as the explored run (shadow mapped) */
-					++replay_runs;
-					if (nmemo < 2048)
-					{
-						memo[nmemo].n = q.nseq; memcpy(memo[nmemo].t, q.seq_tid, 64); memcpy(memo[nmemo].k, q.seq_op, 64);
-						memo[nmemo].ok = ex2->ok; memo[nmemo].obs = ex2->obs; ++nmemo;
-					}
+					int bt, bk;
+					if (!explains(&q, ex, ex2, &bt, &bk))
+						vadd(v, "RNG thread %d op %d (%c): result differs from the sequential execution of the observed lock order", bt, bk, prog->ops[bt][bk].code);
 				}
 			}
-			if (!ex2->ok) vadd(v, "RNG sequential replay of the linearisation crashed: %s", ex2->err);
-			else for (i = 0; i < q.nseq; ++i)
+			else if (v->n == 0)
 			{
-				t = q.seq_tid[i]; k = q.seq_op[i];
-				if (debug_outs)
+				/* an operation entered the generator's critical section several times or not at all: that alone is not a
+				   violation of the property; search ALL sequential orders of the operations (per-thread program order kept)
+				   for one that explains every observed result */
+				int idx[VS_MAXT]; int total = 0, found_ok = 0; long tried = 0;
+				int stack_t[64]; int depth = 0;
+				memset(idx, 0, sizeof idx);
+				for (t = 1; t <= prog->nthr; ++t) total += prog->nops[t];
+				/* iterative DFS over merges */
 				{
-					int z;
-					fprintf(stderr, "T%d.%d %c ret %lu/%lu out ", t, k, prog->ops[t][k].code, ex->obs.ret[t][k], ex2->obs.ret[t][k]);
-					for (z = 0; z < 32; ++z) fprintf(stderr, "%02x", ex->obs.out[t][k][z]);
-					fprintf(stderr, " / ");
-					for (z = 0; z < 32; ++z) fprintf(stderr, "%02x", ex2->obs.out[t][k][z]);
-					fprintf(stderr, " es %d/%d\n", ex->obs.es_calls, ex2->obs.es_calls);
+					int choice[64];
+					int d = 0;
+					choice[0] = 1;
+					while (d >= 0 && !found_ok)
+					{
+						if (d == total)
+						{
+							int bt, bk;
+							q.nseq = total;
+							for (i = 0; i < total; ++i) { q.seq_tid[i] = (unsigned char)stack_t[i]; }
+							{ int ii[VS_MAXT]; memset(ii, 0, sizeof ii); for (i = 0; i < total; ++i) q.seq_op[i] = (unsigned char)ii[stack_t[i]]++; }
+							seq_replay(&q, ex2); ++tried;
+							if (ex2->ok && explains(&q, ex, ex2, &bt, &bk)) found_ok = 1;
+							--d; if (d >= 0) { --idx[stack_t[d]]; ++choice[d]; }
+							continue;
+						}
+						for (t = choice[d]; t <= prog->nthr; ++t) if (idx[t] < prog->nops[t]) break;
+						if (t > prog->nthr) { --d; if (d >= 0) { --idx[stack_t[d]]; ++choice[d]; } continue; }
+						choice[d] = t; stack_t[d] = t; ++idx[t]; ++d; if (d <= total) choice[d] = 1;
+					}
+					(void)depth;
 				}
-				if (ex2->obs.ret[t][k] != ex->obs.ret[t][k] || memcmp(ex2->obs.out[t][k], ex->obs.out[t][k], 32))
-				{ vadd(v, "RNG thread %d op %d (%c): result differs from the sequential execution of the observed lock order", t, k, prog->ops[t][k].code); break; }
+				if (!found_ok)
+					vadd(v, "RNG no sequential order of the operations (%ld tried) explains the observed results; thread %d op %d (%c) entered the generator's critical section %d time(s)",
+						tried, bad_t, bad_k, prog->ops[bad_t][bad_k].code, bad_n);
 			}
 		}
 	}
